@@ -253,6 +253,13 @@ Definition st_recheck (p : pod) (c : ctx) : outc :=
     end
   else Go c.
 
+(* the eviction call itself and the Evicting condition that remembers it *)
+Definition st_evict_call (e : renv) (c : ctx) : outc :=
+  let '(fail, c') := pop c in
+  let c'' := with_eff c' (mkEff EEvict (negb fail) (stamp_of (cr c) (epod e))) in
+  if fail then Stop c''
+  else halt (updcond cEv set_cEv C_FALSE SS_EV RS_EVICTING c'').
+
 (* evictPod: [Go] = eviction complete, [Stop] = everything else *)
 Definition st_evict (e : renv) (c : ctx) : outc :=
   if cEv (cj c) =? C_TRUE then Go c
@@ -268,10 +275,7 @@ Definition st_evict (e : renv) (c : ctx) : outc :=
     else
       andthen (st_bound_by_other 0 c) (fun c =>
       andthen (match epod e with Some p => st_recheck p c | None => Go c end) (fun c =>
-        let '(fail, c') := pop c in
-        let c'' := with_eff c' (mkEff EEvict (negb fail) (stamp_of (cr c) (epod e))) in
-        if fail then Stop c''
-        else halt (updcond cEv set_cEv C_FALSE SS_EV RS_EVICTING c''))).
+        st_evict_call e c)).
 
 (* evictPodDirectly *)
 Definition st_direct (e : renv) (c : ctx) : outc :=
@@ -341,28 +345,34 @@ Definition st_pendingpod (e : renv) (c : ctx) : outc :=
                 (fun c => halt (updcond cPS set_cPS C_FALSE SS_PS RS_UNSCHED c))
   end.
 
-(* waitForPodBindReservation, handleReservationBoundSuccess, waitForPodReady,
-   handleBoundPodReadySuccess and the final status update *)
+(* waitForPodBindReservation *)
+Definition st_bind (r : res) (c : ctx) : outc :=
+  if cPB (cj c) =? C_TRUE then Go c
+  else if rbound r =? 0 then halt (updcond cPB set_cPB C_FALSE SS_PB RS_WAITBIND c)
+  else Go c.
+
+(* handleReservationBoundSuccess (a nil bound pod is dereferenced: the reconcile panics) *)
+Definition st_bound (r : res) (c : ctx) : outc :=
+  if rbound r =? 0 then Stop c
+  else if (spodref (cj c) =? 0) || negb (cRB (cj c) =? C_TRUE)
+       then wjob c (set_spodref (set_cRB (cj c) C_TRUE) (rbound r)) else Go c.
+
+(* waitForPodReady *)
+Definition st_ready (e : renv) (c : ctx) : outc :=
+  if cBR (cj c) =? C_TRUE then Go c
+  else if ebp e =? 0 then Go c
+  else if ebp e =? 1 then halt (updcond cBR set_cBR C_FALSE SS_BR RS_WAITREADY c)
+  else Go c.
+
+(* handleBoundPodReadySuccess and the final status update *)
+Definition st_final (r : res) (c : ctx) : outc :=
+  andthen (updcond cBR set_cBR C_TRUE SS_BR RS_NONE c) (fun c =>
+    halt (wjob c (set_cPB (set_spodref (set_complete (cj c)) (rbound r)) C_TRUE))).
+
 Definition st_finish (e : renv) (r : res) (c : ctx) : outc :=
-  let bind :=
-    if cPB (cj c) =? C_TRUE then Go c
-    else if rbound r =? 0 then halt (updcond cPB set_cPB C_FALSE SS_PB RS_WAITBIND c)
-    else Go c in
-  andthen bind (fun c =>
-    if rbound r =? 0 then Stop c   (* nil bound pod dereferenced: the reconcile panics *)
-    else
-      let bound :=
-        if (spodref (cj c) =? 0) || negb (cRB (cj c) =? C_TRUE)
-        then wjob c (set_spodref (set_cRB (cj c) C_TRUE) (rbound r)) else Go c in
-      andthen bound (fun c =>
-        let ready :=
-          if cBR (cj c) =? C_TRUE then Go c
-          else if ebp e =? 0 then Go c
-          else if ebp e =? 1 then halt (updcond cBR set_cBR C_FALSE SS_BR RS_WAITREADY c)
-          else Go c in
-        andthen ready (fun c =>
-          andthen (updcond cBR set_cBR C_TRUE SS_BR RS_NONE c) (fun c =>
-            halt (wjob c (set_cPB (set_spodref (set_complete (cj c)) (rbound r)) C_TRUE)))))).
+  andthen (st_bind r c) (fun c =>
+  andthen (st_bound r c) (fun c =>
+  andthen (st_ready e c) (fun c => st_final r c))).
 
 (* doMigrate after the mode switch, reservation-first *)
 Definition st_resfirst (e : renv) (c : ctx) : outc :=
